@@ -38,6 +38,24 @@ def atoms(rng, count, all_ops=False):
     for j, (a, b) in enumerate(itertools.product(LEAVES, LEAVES)):
         for op in (CMPS if all_ops else [CMPS[j % len(CMPS)]]):
             out.append(("cmp", op, a, b))
+    # an expression on one side whose exact value may be negative although its operands are unsigned and narrow
+    # (`H - H`, `I - 1`, `b * B`), against signed and 8-byte operands, both ways round.  (A seeded change dropped
+    # the sign extension of a 32-bit left operand of unsigned kind before a 64-bit signed jump; the only
+    # expression operand had been `a + 1`.)  tuple([...]) makes a fresh leaf: a leaf object is one variable.
+    def lf(kind, f):
+        return tuple([kind, f])
+    makers = [lambda: ("bin", "sub", lf("var", "H"), lf("var", "H")), lambda: ("bin", "sub", lf("var", "B"), lf("var", "H")),
+              lambda: ("bin", "sub", lf("var", "I"), ("const", 1)), lambda: ("bin", "sub", lf("var", "I"), lf("var", "I")),
+              lambda: ("bin", "mul", lf("var", "b"), lf("var", "B")), lambda: ("neg", lf("var", "H")),
+              lambda: ("bin", "sub", lf("local", "H"), lf("reg", "w")), lambda: ("bin", "sub", lf("hash", "I"), lf("var", "B"))]
+    wide = [("var", "q"), ("reg", "sr"), ("hash", "q"), ("var", "i"), ("var", "Q"), ("reg", "sw"), ("var", "h")]
+    j = 0
+    for mk in makers:
+        for w in wide:
+            for op in (CMPS if all_ops else [CMPS[j % len(CMPS)], CMPS[(j + 3) % len(CMPS)]]):
+                out.append(("cmp", op, mk(), lf(*w)))
+                out.append(("cmp", op, lf(*w), mk()))
+            j += 1
     for a in LEAVES:
         out.append(("truth", a))
         out.append(("truth", ("bin", "and", a, ("const", [1, 4, 0x80, 0x100, 6, 0x8000][len(out) % 6]))))
